@@ -7,7 +7,9 @@ pub mod c03;
 pub mod c04;
 pub mod c07;
 pub mod c08;
+pub mod c09;
 pub mod c11;
+pub mod c12;
 pub mod c14;
 pub mod c15;
 pub mod c16;
@@ -21,7 +23,9 @@ pub fn run(id: &str, rep: &mut Report) -> bool {
         "C04" => c04::run(rep),
         "C07" => c07::run(rep),
         "C08" => c08::run(rep),
+        "C09" => c09::run(rep),
         "C11" => c11::run(rep),
+        "C12" => c12::run(rep),
         "C14" => c14::run(rep),
         "C15" => c15::run(rep),
         "C16" => c16::run(rep),
@@ -40,7 +44,9 @@ pub fn replay(id: &str, v: &Value) -> i32 {
         "C04" => c04::replay(w),
         "C07" => c07::replay(w),
         "C08" => c08::replay(w),
+        "C09" => c09::replay(w),
         "C11" => c11::replay(w),
+        "C12" => c12::replay(w),
         "C14" => c14::replay(w),
         "C15" => c15::replay(w),
         "C16" => c16::replay(w),
